@@ -25,7 +25,7 @@ ASSUMPTIONS = ['equality is judged on the public fingerprint (values, dtype kind
                'out) and a text entry on one side and re-reading the other']
 BUDGET = {
     'quick': dict(examples=4000, time_s=300),
-    'thorough': dict(examples=80000, time_s=2400),
+    'thorough': dict(examples=80000, time_s=2400, fuzz=dict(workers=8, runs=6000, max_s=300)),
 }
 
 OPS = ['cols', 'cols', 'rows', 'to_rfi', 'to_mef', 'start_end', 'high_low']
